@@ -15,11 +15,12 @@ from .index import AnalysisError, Program, SRC_ROOT
 
 
 def run_property(prop: str, tier: str, overlay: Optional[Dict[str, str]] = None, holder: Optional[list] = None,
-                 stop_when=None) -> Ctx:
+                 stop_when=None, focus: Optional[str] = None) -> Ctx:
     mod = importlib.import_module(f"sa.props.{prop}")
     prog = Program(SRC_ROOT, overlay)
     ctx = Ctx(prop, tier, prog)
     ctx.stop_when = stop_when
+    ctx.focus = focus  # mutation self-test: evaluate only the table obligations of the rule (prefix) expected to report the mutant
     if holder is not None:
         holder.append(ctx)
     # cross-cutting rule on the property's anchor files: options are handed on to callees (sa/siblings.py::option_forward)
@@ -66,7 +67,9 @@ def _mutant_worker(args) -> Tuple[str, bool, List[str], str]:
         from .core import EarlyStop
         stop = (lambda f: f.key not in baseline_keys and (expect in f.key if expect else True))
         try:
-            ctx = run_property(prop, "quick", overlay, holder, stop_when=stop)
+            import re
+            focus = expect if expect and re.match(r"^[TE]\d+x?\.", expect) else None
+            ctx = run_property(prop, "quick", overlay, holder, stop_when=stop, focus=focus)
         except EarlyStop:
             ctx = holder[0]
         except AnalysisError:
